@@ -25,7 +25,8 @@ CLAIMED["C17"] = ("proof",
     "Tied to the code by a differential run of the extracted model against RpcErrorToNative, TryExpandError, fmt.Sprintf and tryToProcessErr.",
     "DESIGN.md section 8 (C17)",
     "Trusted: Coq kernel; extraction + OCaml driver; Go harness; the verif export of the tables. strconv.Atoi and the one-operand fmt.Sprintf subset are re-implemented in "
-    "Gallina and compared, not proved. The live reconnect-and-repeat half of PHONE_MIGRATE needs the in-process server (covered with the client properties).",
+    "Gallina and compared, not proved. The live reconnect-and-repeat half of PHONE_MIGRATE is run against two in-process servers (scenarios in child processes, forced "
+    "orders through the yield hook) and compared with the extracted decision function; calls in flight on the old connection wait for their own answers (recorded in evidence).",
     "machine-checked proof in Coq + regenerated tables + model/implementation correspondence")
 
 CLAIMED["C01"] = ("proof",
@@ -56,7 +57,8 @@ CLAIMED["C12"] = ("proof",
     "thousands of random and corpus histories on real files (equal mtimes forced with Chtimes, every crash prefix) and on the extracted model.",
     "DESIGN.md section 8 (C12)",
     "Trusted: Coq kernel; extraction + OCaml driver; harness. encoding/json enters as Section hypotheses (round trip, no strict prefix unmarshals) re-checked on the real "
-    "library each run; base64 is an executable Gallina implementation proved to meet its hypothesis. Resume against a live server is covered with C16.",
+    "library each run; base64 is an executable Gallina implementation proved to meet its hypothesis. Resume is also run live: a client started on a written store sends no plain "
+    "frame, its frames open under the stored key and salt, it reconnects after a server close without key exchange (Props/C12m.v states the pure decision).",
     "machine-checked proof in Coq + history correspondence on real files")
 
 CLAIMED["C18"] = ("proof",
@@ -85,8 +87,9 @@ CLAIMED["C13"] = ("proof",
     "registry and schema text regenerated from the tree on every run (Inst/C13i.v). Values of every schema-defined constructor are additionally marshalled and compared with the "
     "schema-defined bytes to turn a mismatch into a concrete input.",
     "DESIGN.md section 8 (C13)",
-    "Trusted: reflection translator, schema embedding, Telethon's canonical-line rule for CRC-32. The 343 generated client methods end to end (request constructor, argument "
-    "positions, result kind) need the in-process server: covered by correspondence there, not by a theorem. Five registered types absent from the schema are a known finding.",
+    "Trusted: reflection translator, schema embedding, Telethon's canonical-line rule for CRC-32. The 343 generated client methods and 3 wrappers are called end to end against "
+    "the in-process reference server on every run (request bytes = the extracted schema serialisation of the function applied to distinguishable arguments, constructor id, "
+    "returned value and kind): a correspondence against the Coq spec, not a theorem about Go source. Five registered types absent from the schema are a known finding.",
     "machine-checked proof in Coq + translators (registry, schema) + correspondence")
 
 CLAIMED["C03"] = ("proof",
@@ -224,7 +227,7 @@ def main():
         json.dump(m, f, indent=1)
 
 
-HOOK_COMMITS = ["8cc65cc", "33a3c78", "794403c", "a317da0", "f05915b", "501c1c7", "51ccb51", "f886761", "ff3373d"]
+HOOK_COMMITS = ["8cc65cc", "33a3c78", "794403c", "a317da0", "f05915b", "501c1c7", "51ccb51", "f886761", "ff3373d", "487aec0"]
 
 if __name__ == "__main__":
     main()
